@@ -107,25 +107,56 @@ def r3_link_move_table(chk: Check):
     lp = main[0]
     start = [m for m, l in lp.succ if l == "loop"][0]
 
+    # roles of the expressions of the loop body, by their canonical (definition-expanded) text
+    JOBS = {"jobspath", "workpath / 'jobs'"}
+    NAME = {"job_path.parents[1].name", "job_path.parent.parent.name"}
+    OLDID = "job_path.parent.name"
+    NEWID = "job.__xpm__.identifier.all.hex()"
+    ROLES = {"job_path.parent": "jobdir", OLDID: "oldid", NEWID: "newid"}
+    for j in JOBS:
+        for nm in NAME:
+            ROLES[f"{j} / {nm} / {OLDID}"] = "old"
+        ROLES[f"{j} / str(job.__xpmtype__.identifier) / {NEWID}"] = "new"
+
+    def role(e, n):
+        return ROLES.get(rd.canon(e, n, depth=6))
+
     def classify(n):
-        t = src(n.ast)
-        table = {
-            "job_path.parent.is_symlink()": ("is_link", True), "job is None": ("job_none", True), "new_identifier == old_identifier": ("differs", False),
-            "fix": ("fix", True), "cleanup": ("cleanup", True), "newjobpath.is_symlink()": ("target_link", True), "newjobpath.exists()": ("target_exists", True),
-            "newjobpath.resolve() == oldjobpath.resolve()": ("other_target", False),
-        }
-        return table.get(t)
+        e = n.ast
+        t = src(e)
+        if t in ("fix", "cleanup"):
+            return (t, True)
+        if t == "job is None":
+            return ("job_none", True)
+        if isinstance(e, ast.Call) and isinstance(e.func, ast.Attribute) and not e.args:
+            r = role(e.func.value, n)
+            if e.func.attr == "is_symlink" and r == "jobdir":
+                return ("is_link", True)
+            if e.func.attr == "is_symlink" and r == "new":
+                return ("target_link", True)
+            if e.func.attr == "exists" and r == "new":
+                return ("target_exists", True)
+        if isinstance(e, ast.Compare) and len(e.ops) == 1 and isinstance(e.ops[0], ast.Eq):
+            l, r_ = e.left, e.comparators[0]
+            if {role(l, n), role(r_, n)} == {"oldid", "newid"}:
+                return ("differs", False)
+            if all(isinstance(x, ast.Call) and isinstance(x.func, ast.Attribute) and x.func.attr == "resolve" and not x.args for x in (l, r_)) and {role(l.func.value, n), role(r_.func.value, n)} == {"old", "new"}:
+                return ("other_target", False)
+        return None
 
     def events(n):
         out = []
         for c in n.calls():
             t = tail(c)
-            if t == "symlink_to":
-                out.append(f"link {src(c.func.value)}->{src(c.args[0])}")
-            if t == "rename":
-                out.append(f"move {src(c.func.value)}->{src(c.args[0])}")
-            if t == "unlink":
-                out.append(f"unlink {src(c.func.value)}")
+            if t in ("symlink_to", "rename", "unlink") and isinstance(c.func, ast.Attribute):
+                recv = role(c.func.value, n) or src(c.func.value)
+                arg = (role(c.args[0], n) or src(c.args[0])) if c.args else ""
+                if t == "symlink_to":
+                    out.append(f"link {recv}->{arg}")
+                elif t == "rename":
+                    out.append(f"move {recv}->{arg}")
+                else:
+                    out.append(f"unlink {recv}")
             if t == "replace":
                 out.append("rewrite params")
         return out
@@ -139,20 +170,20 @@ def r3_link_move_table(chk: Check):
         outs = walk_table(g, start, classify, s, events, stop)
         for o in outs:
             ev = [e for e in o.events]
-            fs = [e for e in ev if not e.startswith("unlink newjobpath")]
+            fs = [e for e in ev if not e.startswith("unlink new")]
             if s["is_link"] or s["job_none"] or not s["differs"] or not s["fix"]:
                 want = []
             elif s["target_exists"] and not (s["target_link"] and False):
                 # a dangling link is removed first (exists() is then false): modelled by target_link & !target_exists
                 want = []
             elif s["cleanup"]:
-                want = ["rewrite params", "move oldjobpath->newjobpath"]
+                want = ["rewrite params", "move old->new"]
             else:
-                want = ["link newjobpath->oldjobpath"]
+                want = ["link new->old"]
             unk = [u[0] for u in o.unknown if u[2] is None]
             ok = fs == want and not unk
             # dangling link removal only when target is a link and does not exist
-            if "unlink newjobpath" in ev and not (s["target_link"] and not s["target_exists"]):
+            if "unlink new" in ev and not (s["target_link"] and not s["target_exists"]):
                 ok = False
             if not ok:
                 sc = ", ".join(f"{k}={'T' if v else 'F'}" for k, v in s.items())
@@ -162,20 +193,26 @@ def r3_link_move_table(chk: Check):
                 return
     chk.ok(chk.fkey(f, "repair decision table"), loc, f"{nsc} scenarios over {len(atoms)} atoms")
     chk.count("c20_scenarios", nsc)
-    # identifiers compared: directory name vs recomputed identifier of the loaded job
-    canon = {}
+    # identifiers compared / paths: decided by the roles above (a comparison or a path that is not one of the role texts is an unmodelled condition / target)
+    seen_roles = set()
     for n in g.live:
-        if n.kind == "stmt" and isinstance(n.ast, (ast.Assign, ast.AnnAssign)):
-            t = n.ast.targets[0] if isinstance(n.ast, ast.Assign) else n.ast.target
-            canon[src(t)] = src(n.ast.value)
-    chk.require(canon.get("old_identifier") == "job_path.parent.name" and canon.get("new_identifier") == "job.__xpm__.identifier.all.hex()", chk.fkey(f, "identifiers compared"),
-                f"old/new identifiers are {canon.get('old_identifier')} / {canon.get('new_identifier')}", loc)
-    okp = canon.get("newjobpath") in ("jobspath / str(job.__xpmtype__.identifier) / new_identifier", "workpath / 'jobs' / str(job.__xpmtype__.identifier) / new_identifier") \
-        and canon.get("oldjobpath") in ("jobspath / name / old_identifier", "workpath / 'jobs' / name / old_identifier")
-    chk.require(okp, chk.fkey(f, "paths"),
-                f"old/new job paths are {canon.get('oldjobpath')} / {canon.get('newjobpath')}: the new location must be jobs/<current type identifier>/<recomputed identifier>", loc)
+        for x in n.walk():
+            if isinstance(x, ast.expr) and not isinstance(x, ast.Constant):
+                r = role(x, n)
+                if r:
+                    seen_roles.add(r)
+    chk.require({"old", "new", "oldid", "newid", "jobdir"} <= seen_roles, chk.fkey(f, "paths"),
+                f"fix_deprecated must compare the directory name with the recomputed identifier and link jobs/<current type identifier>/<recomputed identifier> to jobs/<stored type>/<stored identifier>; "
+                f"recognised {sorted(seen_roles)}", loc)
     lj = tree.func("tools.jobs", "load_job")
-    chk.require("discard_id=discard_id" in src(lj.node) and "discard_id=True" in src(lj.node), chk.fkey(lj, "recomputes"), "load_job must discard the stored identifier so that it is recomputed", chk.loc(lj.module, lj.node))
+    la = lj.node.args
+    defaults = dict(zip(reversed([x.arg for x in la.posonlyargs + la.args]), reversed(la.defaults)))
+    d = defaults.get("discard_id")
+    passes = [c for c in fn_calls(lj.node) if tail(c) == "fromParameters" and any(k.arg == "discard_id" and src(k.value) == "discard_id" for k in c.keywords)]
+    callers = [c for c in fn_calls(f.node) if dotted(c.func) == "load_job"]
+    overridden = [c for c in callers if len(c.args) > 1 or any(k.arg == "discard_id" for k in c.keywords)]
+    chk.require(isinstance(d, ast.Constant) and d.value is True and len(passes) >= 1 and callers and not overridden, chk.fkey(lj, "recomputes"),
+                "load_job must discard the stored identifier so that it is recomputed", chk.loc(lj.module, lj.node))
 
 
 def r4_recomputed_identifier(chk: Check):
